@@ -112,3 +112,52 @@ Proof.
   rewrite (digits_us_digits (c :: r) 0 Hd).
   change (is_digit c) with (dig c). rewrite Hc. reflexivity.
 Qed.
+
+(* ================================================================ the int family *)
+
+Lemma opt_minus_cases : forall s,
+  (exists r, s = 45 :: r /\ opt_minus s = r /\ is_neg s = true)
+  \/ (opt_minus s = s /\ is_neg s = false /\ forall r, s <> 45 :: r).
+Proof.
+  destruct s as [|c r].
+  - right. repeat split. intros r H. discriminate.
+  - bits c;
+    first [ left; eexists; repeat split; reflexivity
+          | right; repeat split; intros r' H'; discriminate ].
+Qed.
+
+Lemma layout_int_lex : forall s, layout_int s = lex_int s.
+Proof.
+  intro s. unfold layout_int, lex_int, digs. change (unsigned s) with (opt_minus s).
+  destruct (opt_minus s); reflexivity.
+Qed.
+
+Definition int_ok (nz nn : bool) (rg : option (Z * Z)) (v : Z) : bool :=
+  negb (nz && (v =? 0)%Z) && negb (nn && (v <? 0)%Z)
+  && match rg with Some (lo, hi) => (lo <=? v)%Z && (v <=? hi)%Z | None => true end.
+
+Lemma validate_int_spec : forall nz nn rg s,
+  validate_int nz nn rg s = negb (lex_int s && negb (too_many_digits s) && int_ok nz nn rg (int_value s)).
+Proof.
+  intros nz nn rg s. destruct (lex_int s) eqn:L.
+  - assert (HL : layout_int s = true) by (rewrite layout_int_lex; exact L).
+    unfold lex_int, digs in L. change (unsigned s) with (opt_minus s) in L.
+    apply andb_prop in L. destruct L as [Hne Hd].
+    unfold validate_int, too_many_digits, int_value. change (unsigned s) with (opt_minus s). rewrite HL.
+    destruct (opt_minus_cases s) as [[r [Hs [Hu Hn]]] | [Hu [Hn _]]]; rewrite Hu in *; rewrite Hn.
+    + subst s. rewrite py_int_minus; [| destruct r; [discriminate | congruence] | exact Hd].
+      cbn [filter]. change (dig 45) with false. cbv iota. rewrite (filter_all _ dig r Hd).
+      destruct (4300 <? N.of_nat (length r)); [reflexivity|].
+      unfold int_ok. match goal with |- context [(?x =? 0)%Z] => set (v := x) end.
+      destruct nz, nn, rg as [[lo hi]|]; cbn [negb andb];
+        destruct (v =? 0)%Z; destruct (v <? 0)%Z; try destruct (lo <=? v)%Z; try destruct (v <=? hi)%Z; reflexivity.
+    + rewrite py_int_unsigned; [| destruct s; [discriminate | congruence] | exact Hd].
+      rewrite (filter_all _ dig s Hd).
+      destruct (4300 <? N.of_nat (length s)); [reflexivity|].
+      unfold int_ok. match goal with |- context [(?x =? 0)%Z] => set (v := x) end.
+      destruct nz, nn, rg as [[lo hi]|]; cbn [negb andb];
+        destruct (v =? 0)%Z; destruct (v <? 0)%Z; try destruct (lo <=? v)%Z; try destruct (v <=? hi)%Z; reflexivity.
+  - cbn [andb negb]. unfold validate_int. rewrite layout_int_lex, L.
+    destruct (py_int s); [|reflexivity].
+    repeat match goal with |- context [if ?b then _ else _] => destruct b end; reflexivity.
+Qed.
